@@ -24,6 +24,8 @@ class Template(object):
         self.module = module
         self.linemap = linemap
         self.defs = dict((n.name, n) for n in module.body if isinstance(n, ast.FunctionDef))
+        for n in self.defs.values():
+            n._tpl = self            # skeleton() resolves calls of other defs of the same template through it
 
     def fn(self, name):
         if name not in self.defs:
@@ -230,6 +232,42 @@ def skeleton(fn, indent_name='indent', env=None, choose=None, unroll=None, on_it
                 return n
         return ast.fix_missing_locations(Sub().visit(ast.parse(ast.unparse(e), mode='eval').body))
 
+    tpl = getattr(fn, '_tpl', None)
+    KEEP_DEFS = ('indent', 'do_group', fn.name)
+
+    def try_inline(call, base_ind, guards, loops, site):
+        """`${some_def(args)}` / `${indent(some_def(args), lvl)}` with some_def another def of the template (one a maintainer has factored a block out into): its lines are
+        emitted in place, parameters standing for the arguments, shifted by the indentation of the call site - what Mako does when the template runs"""
+        if tpl is None or not isinstance(call, ast.Call) or not isinstance(call.func, ast.Name) or call.func.id in KEEP_DEFS or call.func.id not in tpl.defs or call.keywords:
+            return False
+        d = tpl.defs[call.func.id]
+        params = [a.arg for a in d.args.args]
+        if len(call.args) > len(params):
+            return False
+        saved_t, saved_c = dict(tlocals), dict(consts)
+        for p_, a_ in zip(params, call.args):
+            a2 = subst(a_)
+            v_ = const_int(a2)
+            if v_ is not None:
+                consts[p_] = v_
+                tlocals.pop(p_, None)
+            elif not (isinstance(a2, ast.Name) and a2.id == p_):
+                consts.pop(p_, None)
+                tlocals[p_] = a2
+        flush()
+        start = len(lines)
+        walk(d.body, guards, loops)
+        flush()
+        for l_ in lines[start:]:
+            if l_.indent >= 0:
+                l_.indent += base_ind
+            l_.tline = site          # positions are those of the call site: rules order phases by where they are emitted
+        tlocals.clear()
+        tlocals.update(saved_t)
+        consts.clear()
+        consts.update(saved_c)
+        return True
+
     def walk(stmts, guards, loops):
         for s in stmts:
             if is_emit(s, '__text__'):
@@ -256,6 +294,11 @@ def skeleton(fn, indent_name='indent', env=None, choose=None, unroll=None, on_it
                     mark(s, guards, loops)
                     ind = 4 * lvl if lvl is not None else -1
                     a0 = e.args[0]
+                    if ind >= 0 and try_inline(a0, ind, guards, loops, s.lineno):
+                        cur['tline'] = None
+                        cur['guards'] = None
+                        cur['loops'] = None
+                        continue
                     lit, lex = None, []
                     left = a0
                     while isinstance(left, ast.BinOp) and isinstance(left.op, (ast.Add, ast.Mod)):
@@ -281,6 +324,8 @@ def skeleton(fn, indent_name='indent', env=None, choose=None, unroll=None, on_it
                     cur['tline'] = None
                     cur['guards'] = None
                     cur['loops'] = None
+                elif not cur['text'].strip() and try_inline(e, len(cur['text']), guards, loops, s.lineno):
+                    pass
                 else:
                     mark(s, guards, loops)
                     cur['text'] += '\x00%d\x00' % len(cur['exprs'])
